@@ -1,7 +1,7 @@
 (* Proofs/CodecErrArr.v — C08: an unbounded array over a buffer that holds a whole number of
    elements decodes exactly those elements. *)
 From PV Require Import Base.Bytes Base.BytesLemmas Base.Res.
-From PV Require Import Gen.Types Gen.CodecFacts Model.Codec Model.CodecDom.
+From PV Require Import Gen.Types Gen.CodecFacts Model.Codec.
 From PV Require Import Proofs.CodecErrDefs Proofs.CodecErrBase Proofs.CodecErrDec Proofs.CodecErrStrict.
 From Coq Require Import ZifyBool.
 Open Scope Z_scope.
@@ -21,20 +21,23 @@ Proof.
   - destruct f as [|f]; [lia|]. cbn [decode_all]. now rewrite Hnil.
   - destruct f as [|f]; [lia|]. cbn [decode_all].
     destruct (Hit b v (or_introl eq_refl)) as [Hb Hd]. rewrite Hd.
-    rewrite IH.
+    assert (Hne : (length (concat (map fst items)) =? length (b ++ concat (map fst items)))%nat = false).
+    { apply Nat.eqb_neq. rewrite app_length. destruct b; [contradiction|cbn [length]; lia]. }
+    rewrite Hne. rewrite IH.
     + reflexivity.
     + intros b' v' Hin. apply Hit. now right.
     + rewrite app_length in Hf. destruct b; [contradiction|cbn [length] in Hf; lia].
 Qed.
 
 Theorem unbounded_array_exact e fuel (items : list (bytes * val)) :
+  is_bits e = false ->
   (forall b v, In (b, v) items -> b <> [] /\ forall tail, decode_fuel fuel e (b ++ tail) = DOk v tail) ->
   decode_fuel fuel e [] = DEmpty [] ->
   (length (concat (map fst items)) < fuel)%nat ->
   decode_fuel fuel (TArrAll e) (concat (map fst items)) = DOk (VList (map snd items)) [].
 Proof.
-  intros Hit Hnil Hf. cbn [decode_fuel]. unfold array_decode_all.
-  now rewrite (decode_all_exact _ items Hit Hnil fuel Hf).
+  intros Hb Hit Hnil Hf. cbn [decode_fuel]. unfold array_decode_all.
+  rewrite (decode_all_exact _ items Hit Hnil fuel Hf). rewrite Hb. reflexivity.
 Qed.
 
 (* ------------------------------------------------------------------ elementary fixed-width elements *)
@@ -42,7 +45,7 @@ Qed.
 Definition total_leaf (t : ty) : bool :=
   match t with
   | TBool | TReal _ | TIPAddr | TDateTime => true
-  | TInt _ w | TBits w => (0 <? w)%nat
+  | TInt _ w => (0 <? w)%nat
   | _ => false
   end.
 
@@ -53,7 +56,9 @@ Proof.
   { unfold ztake, zlen. rewrite app_length. replace (Z.to_nat (Z.min _ _)) with (length d) by lia. apply firstn_app_exact. }
   assert (H2 : zdrop (Z.of_nat (length d)) (d ++ r) = r).
   { unfold zdrop, zlen. rewrite app_length. replace (Z.to_nat (Z.min _ _)) with (length d) by lia. apply skipn_app_exact. }
-  rewrite H1, H2. destruct d; [contradiction|reflexivity].
+  rewrite H1, H2. destruct d as [|b d']; [contradiction|].
+  assert (Hl : (zlen (b :: d') <? Z.of_nat (length (b :: d'))) = false) by (unfold zlen; lia).
+  now rewrite Hl.
 Qed.
 
 Lemma elem_decode_exact_app size unpack (d r : bytes) :
@@ -87,29 +92,28 @@ Proof.
     destruct (int_decode_total false 4 (firstn 4 d) H4 ltac:(lia)) as [v1 Hv1].
     destruct (int_decode_total false 2 (skipn 4 d) H2 ltac:(lia)) as [v2 Hv2].
     exists (VTuple [v1; v2]). intros _ r. rewrite Hd, <- app_assoc, Hv1. cbn [dbind]. rewrite Hv2. reflexivity.
-  - (* TBits *)
-    apply Nat.ltb_lt in Ht. unfold bits_decode. destruct (int_decode_total false w d Hl Ht) as [v Hv].
-    eexists. intros _ r. rewrite Hv. reflexivity.
   - (* TIPAddr *)
     unfold ip_decode. destruct d as [|a [|b [|c [|d' [|? ?]]]]]; try discriminate.
     eexists. intros _ r. change 4 with (Z.of_nat (length [a; b; c; d'])). rewrite stream_read_exact by discriminate. reflexivity.
 Qed.
 
-Lemma stream_read_nil n k : stream_read n [] k = DEmpty [].
-Proof. unfold stream_read, stream_take, ztake, zdrop. destruct (n <? 0); [reflexivity|]. now rewrite firstn_nil, skipn_nil. Qed.
+Lemma stream_read_nil n k : n <> 0 -> stream_read n [] k = DEmpty [].
+Proof.
+  intros Hn. unfold stream_read, stream_take, ztake, zdrop. destruct (n <? 0); [now apply Z.eqb_neq in Hn; rewrite Hn|].
+  rewrite firstn_nil, skipn_nil. apply Z.eqb_neq in Hn. now rewrite Hn.
+Qed.
 
-Lemma int_decode_nil sg w : int_decode sg w [] = DEmpty [].
-Proof. unfold int_decode, elem_decode. now rewrite stream_read_nil. Qed.
+Lemma int_decode_nil sg w : (0 < w)%nat -> int_decode sg w [] = DEmpty [].
+Proof. intros Hw. unfold int_decode, elem_decode. rewrite stream_read_nil by lia. reflexivity. Qed.
 
 Lemma total_leaf_empty t : total_leaf t = true -> forall fuel, decode_fuel fuel t [] = DEmpty [].
 Proof.
   intros Ht fuel. destruct t; try discriminate; cbn [decode_fuel].
-  - unfold bool_decode, elem_decode. now rewrite stream_read_nil.
-  - apply int_decode_nil.
-  - unfold real_decode, elem_decode. now rewrite stream_read_nil.
-  - unfold datetime_decode. rewrite named_UDINT_decode, int_decode_nil. reflexivity.
-  - unfold bits_decode. rewrite int_decode_nil. reflexivity.
-  - unfold ip_decode. now rewrite stream_read_nil.
+  - unfold bool_decode, elem_decode. rewrite stream_read_nil by lia. reflexivity.
+  - apply int_decode_nil. now apply Nat.ltb_lt.
+  - unfold real_decode, elem_decode. rewrite stream_read_nil by (destruct dbl; lia). reflexivity.
+  - unfold datetime_decode. rewrite named_UDINT_decode, int_decode_nil by lia. reflexivity.
+  - unfold ip_decode. rewrite stream_read_nil by lia. reflexivity.
 Qed.
 
 Lemma total_leaf_width t : total_leaf t = true -> (0 < swidth t)%nat.
@@ -147,6 +151,7 @@ Proof.
   intros Ht Hl. destruct (chunks_of t Ht k bs Hl) as (items & Hc & Hn & Hit).
   exists (map snd items). split; [now rewrite map_length|]. intros fuel Hf. rewrite <- Hc.
   apply unbounded_array_exact.
+  - destruct t; try discriminate; reflexivity.
   - intros b v Hin. destruct (Hit b v Hin) as [H1 H2]. split; [exact H1|]. intros tail. apply H2.
   - apply total_leaf_empty, Ht.
   - now rewrite Hc.
